@@ -130,6 +130,9 @@ func (f *frame) evalClause(cl Clause, env *SpecEnv) string {
 // pick selects the value for each header phi.
 func (f *frame) headerPhiOverrides(li *loopInfo, pick func(phi *ssa.Phi) (Val, bool)) map[string]SV {
 	ov := map[string]SV{}
+	if li.entryNext != "" {
+		ov["#loopbound"] = SV{Term: li.entryNext, Typ: types.Typ[types.Int]}
+	}
 	for _, instr := range li.header.Instrs {
 		phi, ok := instr.(*ssa.Phi)
 		if !ok {
@@ -199,6 +202,7 @@ func (f *frame) enterLoop(li *loopInfo, in *State) *State {
 		entryVals[phi] = Val{T: t, Typ: phi.Type()}
 	}
 	lp := fmt.Sprintf("%s:loop%d", f.path, li.ordinal)
+	li.entryNext = in.next
 	if li.spec != nil {
 		ov := f.headerPhiOverrides(li, func(phi *ssa.Phi) (Val, bool) { v, ok := entryVals[phi]; return v, ok })
 		f.seenOverride(li, in, ov)
@@ -247,6 +251,9 @@ func (f *frame) enterLoop(li *loopInfo, in *State) *State {
 		}
 		if li.spec.Decreases != nil {
 			li.measure0 = c.define("measure", SInt, f.evalClause(*li.spec.Decreases, env))
+		}
+		if clausesMentionDeepcopy(li.spec.Invariants) {
+			c.recordSnap(hs)
 		}
 	}
 	li.hdrState = hs.clone()
@@ -372,6 +379,7 @@ func (f *frame) execInstr(b *ssa.BasicBlock, instr ssa.Instruction, st *State) {
 			f.setVal(in, Val{T: ref, Typ: in.Type()})
 		} else {
 			f.zeroInitObj(st, ref, et)
+			f.tagAllocKind(st, id, et, false)
 			if nt, ok := et.(*types.Named); ok && nt.Obj().Pkg() != nil && nt.Obj().Pkg().Path() == "strings" && nt.Obj().Name() == "Builder" {
 				c.assume(st, fmt.Sprintf("(= (select %s %s) str_empty)", st.Heap(sbHeap(g)), ref))
 			}
